@@ -1186,3 +1186,64 @@ def search_pattern_typing(drv, rng, budget):
             if not got.startswith("compile-err"):
                 return {"call": "let binding one name twice in a pattern", "input": {"program": src}, "op": ["run", hx(src), hx(""), hx(""), "0"], "expected": "compile-err", "observed": got}
     return None
+
+
+# ---------------------------------------------------------------- C06 totality of the text entry points
+@searcher("totality/")
+def search_totality(drv, rng, budget):
+    """every text entry point (program, type, value at a type, witness module, argument module, error rendering) on valid
+    samples and on mutations of them (character deletion / insertion / replacement / duplication of a line, random `_`, digits,
+    brackets up to depth 12, newlines, tabs, CR, non-ASCII): the driver must answer Ok or Err, never a panic or a dead process"""
+    progs = ["fn main() {\n    let a: u8 = 1;\n    assert!(jet::eq_8(a, 1));\n}\n",
+             "type T = (u8, bool);\nfn f(x: T) -> u8 { let (a, b): T = x; a }\nfn main() { let y: u8 = f((1, true)); }\n",
+             "fn main() {\n    let l: List<u8, 4> = list![1, 2];\n    let o: Option<u16> = Some(0xffff);\n    let e: Either<u1, u2> = Left(0b1);\n    match e { Left(x: u1) => assert!(true), Right(y: u2) => panic!(), }\n}\n",
+             "fn main() { let x: u256 = 0x0000000000000000000000000000000000000000000000000000000000000001; let w: u8 = witness::W; }\n"]
+    types = ["u8", "(u8, u16)", "[u32; 7]", "List<bool, 8>", "Option<Either<u1, (u2, u4)>>", "()", "(u128,)", "[(); 0]", "Foo", "Foo\n\n", "u8\n", ""]
+    values = [("5", "u8"), ("(1, 2)", "(u8, u16)"), ("[1, 2, 3]", "[u8; 3]"), ("list![1]", "List<u8, 2>"), ("0xab", "u8"), ("0b1", "u1"), ("0x", "u4"),
+              ("0b_", "u8"), ("Some(Left(1))", "Option<Either<u8, u8>>"), ("0x0102", "[u8; 2]"), ("1_0", "u8"), ("0b" + "1" * 16, "u16"), ("0b" + "0" * 32, "u32"),
+              ("0b" + "10" * 64, "u128"), ("0b" + "1" * 256, "u256"), ("0b" + "1" * 64, "u64")]
+    mods = ["mod witness {\n    const A: u8 = 1;\n    const B: (u8, bool) = (2, false);\n}", "mod param { const X: u32 = 7; }", "mod witness {}", "mod other { const A: u8 = 1; }"]
+    alphabet = list("0123456789_abxXfF(){}[]<>,;:=!&|-+*/ \n\t\r\"'") + ["é", "漢", " ", "0x", "0b", "u8", "u1", "fn", "let", "mod", "witness::", "param::", "jet::"]
+
+    def mutate(t):
+        t = list(t)
+        for _ in range(rng.randint(1, 3)):
+            k = rng.randrange(4)
+            pos = rng.randrange(len(t) + 1)
+            if k == 0 and t: del t[min(pos, len(t) - 1)]
+            elif k == 1: t.insert(pos, rng.choice(alphabet))
+            elif k == 2 and t: t[min(pos, len(t) - 1)] = rng.choice(alphabet)
+            else: t[pos:pos] = t[max(0, pos - 5):pos]
+        return "".join(t)
+
+    def bad(resp):
+        return resp.startswith("panic") or resp.startswith("died")
+
+    n = 0
+    while n < max(budget, 300):
+        kind = n % 5
+        if kind == 0:
+            t = rng.choice(progs); t = t if n < 20 else mutate(t)
+            ops = [["render_err", hx(t)], ["run", hx(t), hx(""), hx("mod witness { const W: u8 = 1; }"), "1"]]
+        elif kind == 1:
+            t = rng.choice(types); t = t if n < 60 else mutate(t)
+            ops = [["parse_type", hx(t)]]
+        elif kind == 2:
+            v, ty = rng.choice(values)
+            if n >= 100:
+                if rng.random() < 0.5: v = mutate(v)
+                else: ty = rng.choice([x for x in types if x.strip() and x != "Foo"] + ["u1", "u2", "u4", "u16", "u64", "u256", "[u8; 9223372036854775808]"])
+            ops = [["struct_value", hx(v), hx(ty)]]
+        elif kind == 3:
+            t = rng.choice(mods); t = t if n < 40 else mutate(t)
+            ops = [["parse_witness", hx(t)], ["parse_args", hx(t)]]
+        else:
+            t = rng.choice(progs); t = mutate(t)
+            ops = [["params", hx(t)], ["debug_info", hx(t), hx("")]]
+        for op in ops:
+            got = drv.call(*op)
+            if bad(got):
+                return {"call": "text entry point `%s`" % op[0], "input": {"text": [bytes.fromhex(x).decode("utf-8", "replace") if x and len(x) % 2 == 0 and all(c in "0123456789abcdef" for c in x) else x for x in op[1:]]},
+                        "op": op, "expected": "Ok or Err (no panic)", "observed": got[:300]}
+        n += 1
+    return None
